@@ -55,24 +55,52 @@ let show_marker m = match m with
   | MOR (t, i, r) -> Printf.sprintf "OR(%d:%d#%d)" (int_of_n t) (int_of_n i) (int_of_n r)
   | MUOT (u, t) -> Printf.sprintf "UOT(%d,%d)" (int_of_n u) (int_of_n t)
 
+(* ( id (keys) (children) ) ; children and further roots become first-child / next-sibling *)
+let rec dec_forest (vs : value list) : qforest =
+  match vs with
+  | [] -> QNil
+  | v :: rest ->
+    (match as_list v with
+     | [id; keys; kids] -> QCons (as_n id, List.map dec_key (as_list keys), dec_forest (as_list kids), dec_forest rest)
+     | _ -> failwith "forest")
+
 let tick_to (c : cfg) (s : state) (t : int) : state =
   let now = int_of_n s.s_now in
   if t > now then fst (step c s (Tick (n_of_int (t - now)))) else s
 
+(* end-to-end case: ( 9 unquiet ) ( ( observed reference-answers... ) ... ) *)
+let f_e2e unquiet checks =
+  let bad = ref [] in
+  List.iteri (fun i cv ->
+    match List.map as_bool (as_list cv) with
+    | obs :: refs -> if not (List.mem obs refs) then bad := i :: !bad
+    | [] -> ()) checks;
+  match List.rev !bad with
+  | [] -> "OK"
+  | i :: _ ->
+    if unquiet then
+      Printf.sprintf "KNOWN subproblem_restamped_after_write check %d (and %d more) of the real server differs from every uncached answer since the last completed run; Checks were issued between a write and that run"
+        i (List.length !bad - 1)
+    else
+      Printf.sprintf "PROP end-to-end: check %d (and %d more) of the real server differs from the uncached answer although an invalidation run that read the changelog after the last write has completed and no Check fell between a write and its run"
+        i (List.length !bad - 1)
+
 let f _id vs =
   match vs with
+  | [L [I "9"; unq]; checks] -> f_e2e (as_bool unq) (as_list checks)
   | [cfgv; opsv] ->
     let (qon, ion, qttl, ittl, intv, jit) = match as_list cfgv with
       | [a; b; c; d; e; g] -> (as_bool a, as_bool b, as_int c, as_int d, as_int e, as_int g)
       | _ -> failwith "cfg" in
     let c = { c_qon = qon; c_ion = ion; c_qttl = n_of_int qttl; c_ittl = n_of_int ittl; c_interval = n_of_int intv;
-              c_full = n_of_int year_ns; c_page = nat_of_int 50; c_jit = n_of_int jit; c_wtick = n_of_int 1 } in
+              c_full = n_of_int year_ns; c_page = nat_of_int 50; c_jit = n_of_int jit; c_wtick = n_of_int 1; c_subinv = true } in
     let diffs = ref [] and props = ref [] and knowns = ref [] in
     let diff i fmt = Printf.ksprintf (fun s -> diffs := Printf.sprintf "op%d %s" i s :: !diffs) fmt in
     let prop i fmt = Printf.ksprintf (fun s -> props := Printf.sprintf "op%d %s" i s :: !props) fmt in
     let s = ref init_state in      (* model driven with the observed jitter draws *)
     let s0 = ref init_state in     (* same timeline, jitter draws zero *)
     let cov = ref 0 in             (* longest changelog a completed run had read, from the observations *)
+    let unquiet = ref false in     (* a dispatching request fell between a write and the completed run covering it *)
     let b2 b = if b then "1" else "0" in
     List.iteri (fun i opv ->
       match as_list opv with
@@ -80,67 +108,68 @@ let f _id vs =
         let o = Write (List.map dec_tup (as_list ws)) in
         s := fst (step c (tick_to c !s (as_int tb)) o);
         s0 := fst (step c (tick_to c !s0 (as_int tb)) o)
-      | I "2" :: tb :: _ :: keys :: tzero :: spawned :: qhit :: obs :: jq :: [] ->
-        let keys = List.map dec_key (as_list keys) in
-        let obs = List.map (fun x -> match as_list x with
-          | [h; j; ct] -> (as_bool h, as_int j, dec_content ct) | _ -> failwith "obs") (as_list obs) in
-        let jis = List.map (fun (_, j, _) -> n_of_int j) obs in
+      | I "2" :: tb :: _ :: forest :: tzero :: spawned :: qhits :: ihits :: cts :: jq :: jisv :: [] ->
+        let fr = dec_forest [forest] in
+        let qhits = List.map as_bool (as_list qhits) and ihits = List.map as_bool (as_list ihits) in
+        let cts = List.map dec_content (as_list cts) in
+        let jisl = List.map as_int (as_list jisv) in
+        let jis = List.map n_of_int jisl in
         let jmax ttl = ttl / 100 * (min jit 100) + (ttl mod 100) * (min jit 100) / 100 in
-        List.iteri (fun j (_, x, _) -> if x < 0 || x > jmax ittl then
-          diff i "iterator entry %d stored with TTL %d, outside [%d, %d]" j (ittl + x) ittl (ittl + jmax ittl)) obs;
+        List.iteri (fun j x -> if x < 0 || x > jmax ittl then
+          diff i "iterator entry %d stored with TTL %d, outside [%d, %d]" j (ittl + x) ittl (ittl + jmax ittl)) jisl;
         if as_int jq < 0 || as_int jq > jmax qttl then
           diff i "query entry stored with TTL %d, outside [%d, %d]" (qttl + as_int jq) qttl (qttl + jmax qttl);
         let st = tick_to c !s (as_int tb) and st0 = tick_to c !s0 (as_int tb) in
+        if not (req_ok c st fr) then unquiet := true;
         let m_tzero = int_of_n (fst (determine c st)) = 0 in
-        let (st', out) = step c st (Request (keys, true, n_of_int (as_int jq), jis)) in
-        let (st0', out0) = step c st0 (Request (keys, true, N0, [])) in
+        let (st', out) = step c st (Request (fr, true, n_of_int (as_int jq), jis)) in
+        let (st0', out0) = step c st0 (Request (fr, true, N0, [])) in
         s := st'; s0 := st0';
         let db = st.s_db in
         let ndb = nat_len db in
+        let bl l = String.concat "" (List.map b2 l) in
         (match out with
-         | OAns (ans, m_qhit, m_ihits, _, m_spawned) ->
+         | OAns (ans, m_qhits, m_ihits, _, m_spawned) ->
            if m_tzero <> as_bool tzero then diff i "invalidation-time-zero model=%s impl=%s" (b2 m_tzero) (b2 (as_bool tzero));
            if m_spawned <> as_bool spawned then diff i "request spawned run model=%s impl=%s" (b2 m_spawned) (b2 (as_bool spawned));
-           if m_qhit <> as_bool qhit then diff i "query-cache hit model=%s impl=%s" (b2 m_qhit) (b2 (as_bool qhit));
-           if List.length ans <> List.length obs then diff i "answer length model=%d impl=%d" (List.length ans) (List.length obs)
+           if m_qhits <> qhits then diff i "query-cache hits (sub-problems in order) model=[%s] impl=[%s]" (bl m_qhits) (bl qhits);
+           if m_ihits <> ihits then diff i "iterator hits (reads in order) model=[%s] impl=[%s]" (bl m_ihits) (bl ihits);
+           if List.length ans <> List.length cts then diff i "answer length model=%d impl=%d" (List.length ans) (List.length cts)
            else begin
-             if (not m_qhit) && (not (as_bool qhit)) then begin
-               let ih = List.map (fun (h, _, _) -> h) obs in
-               if ih <> m_ihits then diff i "iterator hits model=[%s] impl=[%s]"
-                   (String.concat "" (List.map b2 m_ihits)) (String.concat "" (List.map b2 ih))
-             end;
+             let all_miss = List.for_all not qhits && List.for_all not ihits in
              let stale_obs = ref false in
-             List.iteri (fun j ((k, n), (h, _, ct)) ->
+             List.iteri (fun j ((k, n), ct) ->
                let expect = content_of (view db k n) in
                if expect <> ct then diff i "read %d content model(at %d)=%s impl=%s" j (int_of_nat n) (show_content expect) (show_content ct);
                (* P2: some state of the store *)
                let matches lo = let r = ref false in
                  for v = lo to ndb do if content_of (view db k (nat_of_int v)) = ct then r := true done; !r in
                if not (matches 0) then prop i "read %d returns %s, which no state of the store ever held" j (show_content ct);
-               (* P3: a read that reached the datastore is current *)
-               if (not (as_bool qhit)) && (not h) && content_of (view db k (nat_of_int ndb)) <> ct then
+               (* P3: a request that was answered by the datastore alone is current *)
+               if all_miss && content_of (view db k (nat_of_int ndb)) <> ct then
                  prop i "read %d went to the datastore but returns %s" j (show_content ct);
                (* P1 *)
                if not (matches !cov) then begin
                  stale_obs := true;
-                 if not (qon && ion) then begin
-                   if jit = 0 then
-                     prop i "read %d returns %s although a completed run had read the changelog at length %d (now %d)"
-                       j (show_content ct) !cov ndb
-                 end
-               end) (List.combine ans obs);
-             if !stale_obs && jit > 0 && not (qon && ion) then begin
-               (* attribute to the jitter only if the model agrees and the jitter-free model is fresh *)
-               let fresh0 =
-                 let a0 = out_src out0 in
-                 let ok = ref true in
-                 for v = 0 to !cov - 1 do if not (fresh_atb st0.s_db (nat_of_int v) a0) then ok := false done; !ok in
-               let fresh_m =
-                 let ok = ref true in
-                 for v = 0 to !cov - 1 do if not (fresh_atb db (nat_of_int v) ans) then ok := false done; !ok in
-               if fresh0 && not fresh_m then
-                 knowns := (if ion then "ttl_jitter_iterator_outlives_window" else "ttl_jitter_query_outlives_changelog") :: !knowns
-               else prop i "stale read under jitter that the jitter does not explain (model fresh=%s, jitter-free fresh=%s)" (b2 fresh_m) (b2 fresh0)
+                 if not (qon && ion) && jit = 0 && not !unquiet then
+                   prop i "read %d returns %s although a completed run had read the changelog at length %d (now %d)"
+                     j (show_content ct) !cov ndb
+               end) (List.combine ans cts);
+             let fresh_upto db a = let ok = ref true in
+               for v = 0 to !cov - 1 do if not (fresh_atb db (nat_of_int v) a) then ok := false done; !ok in
+             if !stale_obs && not (qon && ion) then begin
+               if jit > 0 then begin
+                 (* attribute to the jitter only if the model agrees and the jitter-free model is fresh *)
+                 let fresh0 = fresh_upto st0.s_db (out_src out0) and fresh_m = fresh_upto db ans in
+                 if fresh0 && not fresh_m then
+                   knowns := (if ion then "ttl_jitter_iterator_outlives_window" else "ttl_jitter_query_outlives_changelog") :: !knowns
+                 else prop i "stale read under jitter that the jitter does not explain (model fresh=%s, jitter-free fresh=%s)" (b2 fresh_m) (b2 fresh0)
+               end else if !unquiet then begin
+                 (* no jitter, one cache: only the re-stamping of a sub-problem's stale answer can explain it,
+                    and only if the model reproduces it *)
+                 if qon && not (fresh_upto db ans) then knowns := "subproblem_restamped_after_write" :: !knowns
+                 else prop i "stale read that the model does not reproduce"
+               end
              end
            end
          | _ -> diff i "model output kind")
@@ -204,7 +233,7 @@ let f _id vs =
     (match !props, !diffs, !knowns with
      | p :: _, _, _ -> "PROP " ^ p
      | [], d :: _, _ -> "DIFF " ^ String.concat " | " (List.rev !diffs |> List.filteri (fun i _ -> i < 3)) ^ (ignore d; "")
-     | [], [], k :: _ -> "KNOWN " ^ k ^ " a read is stale after a completed run; the jitter-free timeline is fresh"
+     | [], [], k :: _ -> "KNOWN " ^ k ^ " a read is stale after a completed run; the model reproduces it and attributes it to this trigger"
      | [], [], [] -> "OK")
   | _ -> "DIFF malformed-record"
 
